@@ -1202,6 +1202,10 @@ fn verif_c11_crash() {
 
 #[test]
 fn verif_c11_statefile() {
+    if let Ok(dir) = std::env::var("VERIF_C11_CHILD") {
+        statefile_child(&PathBuf::from(dir));
+        return;
+    }
     let mut rep = Report::new("C11", "statefile");
     rep.rule(
         "for every pair (old, new) of state-file contents the relayer writes (fresh, started, prepared) and every crash point of State::write \
@@ -1258,5 +1262,397 @@ fn verif_c11_statefile() {
             }
         }
     }
+    drop(rt);
+    statefile_traced(&mut rep);
     rep.finish();
+}
+
+// ---------------------------------------------------------------------------------------------
+// State file, bound to the real write path: the real state transitions run in a child process
+// under strace; the recorded file-system calls (open/truncate, write, rename, unlink) are the
+// history, and every crash point of that history - before each call and after every byte of each
+// write - is materialised in a fresh directory and handed to the real `new_from_path`.
+// ---------------------------------------------------------------------------------------------
+
+const CHILD_STEPS: usize = 7;
+
+fn statefile_child(dir: &PathBuf) {
+    use std::io::Write as _;
+    let marker = |k: usize| {
+        let mut f = std::fs::OpenOptions::new().create(true).append(true).open(dir.join("marker")).unwrap();
+        f.write_all(format!("{k}\n").as_bytes()).unwrap();
+    };
+    let path = dir.join("state.json");
+    let rt = tokio::runtime::Builder::new_current_thread().enable_all().build().unwrap();
+    rt.block_on(async {
+        marker(0);
+        let SubmissionStateAtStartup::Fresh(fresh) = SubmissionStateAtStartup::new_from_path(&path).await.unwrap() else {
+            panic!("fresh expected");
+        };
+        marker(1);
+        let started = fresh.into_started();
+        let prepared = started.into_prepared(SequencerHeight::from(3u32), super::BlobTxHash::from_raw([1; 32])).await.unwrap();
+        marker(2);
+        let started = prepared.into_started(101).await.unwrap();
+        marker(3);
+        let prepared = started.into_prepared(SequencerHeight::from(5u32), super::BlobTxHash::from_raw([2; 32])).await.unwrap();
+        marker(4);
+        let started = prepared.revert().await.unwrap();
+        marker(5);
+        let prepared = started.into_prepared(SequencerHeight::from(6u32), super::BlobTxHash::from_raw([3; 32])).await.unwrap();
+        marker(6);
+        let _started = prepared.into_started(102).await.unwrap();
+        marker(CHILD_STEPS);
+    });
+}
+
+#[derive(Clone, Debug)]
+enum FsOp {
+    /// open with O_TRUNC (and / or creation of a missing file)
+    Truncate(String),
+    Write(String, Vec<u8>),
+    Rename(String, String),
+    Unlink(String),
+    Marker,
+}
+
+fn unhex_strace(s: &str) -> Vec<u8> {
+    // "\x2f\x74..." as printed by strace -xx
+    let mut out = Vec::new();
+    let b = s.as_bytes();
+    let mut i = 0;
+    while i + 3 < b.len() + 0 && i < b.len() {
+        if b[i] == b'\\' && b[i + 1] == b'x' {
+            out.push(u8::from_str_radix(&s[i + 2..i + 4], 16).unwrap());
+            i += 4;
+        } else {
+            out.push(b[i]);
+            i += 1;
+        }
+    }
+    out
+}
+
+/// Splits the argument list of one strace line into top-level arguments; quoted strings are
+/// returned without quotes.
+fn split_args(s: &str) -> Vec<String> {
+    let mut args = Vec::new();
+    let mut cur = String::new();
+    let mut in_str = false;
+    let mut depth = 0;
+    let mut chars = s.chars().peekable();
+    while let Some(c) = chars.next() {
+        match c {
+            '"' => in_str = !in_str,
+            '\\' if in_str => {
+                cur.push(c);
+                if let Some(n) = chars.next() {
+                    cur.push(n);
+                }
+            }
+            '(' | '[' | '{' if !in_str => {
+                depth += 1;
+                cur.push(c);
+            }
+            ')' | ']' | '}' if !in_str => {
+                depth -= 1;
+                cur.push(c);
+            }
+            ',' if !in_str && depth == 0 => {
+                args.push(cur.trim().to_string());
+                cur = String::new();
+            }
+            _ => cur.push(c),
+        }
+    }
+    if !cur.trim().is_empty() {
+        args.push(cur.trim().to_string());
+    }
+    args
+}
+
+fn parse_strace(log: &str, dir: &str, initial: &BTreeMap<String, Vec<u8>>) -> Result<Vec<FsOp>, String> {
+    use std::collections::HashMap;
+    // join "<unfinished ...>" / "<... resumed>" pairs per thread
+    let mut pending: HashMap<String, String> = HashMap::new();
+    let mut lines: Vec<String> = Vec::new();
+    for raw in log.lines() {
+        let (pid, rest) = raw.split_once(char::is_whitespace).ok_or_else(|| format!("bad line {raw}"))?;
+        let rest = rest.trim_start();
+        if let Some(head) = rest.strip_suffix("<unfinished ...>") {
+            pending.insert(pid.to_string(), head.trim_end().to_string());
+        } else if rest.starts_with("<... ") {
+            let tail = rest.split_once("resumed>").map(|x| x.1).unwrap_or("");
+            let head = pending.remove(pid).unwrap_or_default();
+            lines.push(format!("{head}{tail}"));
+        } else {
+            lines.push(rest.to_string());
+        }
+    }
+    let mut fds: HashMap<i64, (String, bool)> = HashMap::new(); // fd -> (path, is marker)
+    let mut read_fds: HashMap<i64, String> = HashMap::new();
+    let mut shadow: BTreeMap<String, Vec<u8>> = initial.clone(); // file contents so far, for kernel-side copies
+    let mut ops: Vec<FsOp> = Vec::new();
+    let under = |p: &str| p.starts_with(dir);
+    let mut applied = 0usize;
+    for l in lines {
+        while applied < ops.len() {
+            apply_op(&mut shadow, &ops[applied]);
+            applied += 1;
+        }
+        let Some((name, rest)) = l.split_once('(') else { continue };
+        let Some((args, ret)) = rest.rsplit_once(" = ") else { continue };
+        let Some(args) = args.trim_end().strip_suffix(')') else { continue };
+        let ret: i64 = ret.split_whitespace().next().and_then(|r| r.parse().ok()).unwrap_or(-1);
+        let a = split_args(args);
+        let text = |i: usize| String::from_utf8_lossy(&unhex_strace(a.get(i).map(String::as_str).unwrap_or(""))).to_string();
+        match name {
+            "openat" | "open" | "creat" => {
+                let (path, flags) = match name {
+                    "openat" => (text(1), a.get(2).cloned().unwrap_or_default()),
+                    "open" => (text(0), a.get(1).cloned().unwrap_or_default()),
+                    _ => (text(0), "O_CREAT|O_WRONLY|O_TRUNC".to_string()),
+                };
+                if ret < 0 || !under(&path) {
+                    continue;
+                }
+                let is_marker = path.ends_with("/marker");
+                let writable = flags.contains("O_WRONLY") || flags.contains("O_RDWR");
+                if writable && !is_marker && (flags.contains("O_TRUNC") || flags.contains("O_CREAT")) {
+                    if !flags.contains("O_TRUNC") {
+                        return Err(format!("state file opened for writing without truncation: {l}"));
+                    }
+                    ops.push(FsOp::Truncate(path.clone()));
+                } else if writable && !is_marker {
+                    return Err(format!("unmodelled writable open: {l}"));
+                }
+                if writable {
+                    fds.insert(ret, (path, is_marker));
+                } else {
+                    read_fds.insert(ret, path);
+                }
+            }
+            "close" => {
+                if let Some(fd) = a.first().and_then(|x| x.parse::<i64>().ok()) {
+                    fds.remove(&fd);
+                    read_fds.remove(&fd);
+                }
+            }
+            "copy_file_range" | "sendfile" => {
+                // kernel-side copy: a write of the source file's bytes, which can be torn like any other
+                let (src, dst) = if name == "sendfile" { (1, 0) } else { (0, 2) };
+                let fd_of = |i: usize| a.get(i).and_then(|x| x.parse::<i64>().ok());
+                let (Some(src_fd), Some(dst_fd)) = (fd_of(src), fd_of(dst)) else { continue };
+                let Some((dst_path, _)) = fds.get(&dst_fd).cloned() else { continue };
+                if ret <= 0 {
+                    continue;
+                }
+                let Some(src_path) = read_fds.get(&src_fd).cloned() else {
+                    return Err(format!("kernel-side copy into the state file from an unknown source: {l}"));
+                };
+                let already = shadow.get(&dst_path).map_or(0, Vec::len);
+                let content = shadow.get(&src_path).cloned().unwrap_or_default();
+                let n = usize::try_from(ret).unwrap();
+                if already + n > content.len() {
+                    return Err(format!("kernel-side copy not understood: {l}"));
+                }
+                ops.push(FsOp::Write(dst_path, content[already..already + n].to_vec()));
+            }
+            "write" | "pwrite64" | "writev" => {
+                let Some(fd) = a.first().and_then(|x| x.parse::<i64>().ok()) else { continue };
+                let Some((path, is_marker)) = fds.get(&fd).cloned() else { continue };
+                if is_marker {
+                    ops.push(FsOp::Marker);
+                    continue;
+                }
+                if name != "write" {
+                    return Err(format!("unmodelled write call on the state file: {l}"));
+                }
+                let data = unhex_strace(a.get(1).map(String::as_str).unwrap_or(""));
+                if ret < 0 {
+                    continue;
+                }
+                ops.push(FsOp::Write(path, data[..usize::try_from(ret).unwrap().min(data.len())].to_vec()));
+            }
+            "rename" => {
+                if ret == 0 && (under(&text(0)) || under(&text(1))) {
+                    ops.push(FsOp::Rename(text(0), text(1)));
+                }
+            }
+            "renameat" | "renameat2" => {
+                if ret == 0 && (under(&text(1)) || under(&text(3))) {
+                    ops.push(FsOp::Rename(text(1), text(3)));
+                }
+            }
+            "unlink" => {
+                if ret == 0 && under(&text(0)) {
+                    ops.push(FsOp::Unlink(text(0)));
+                }
+            }
+            "unlinkat" => {
+                if ret == 0 && under(&text(1)) {
+                    ops.push(FsOp::Unlink(text(1)));
+                }
+            }
+            "ftruncate" | "truncate" | "dup" | "dup2" | "dup3" => {
+                let touches = match name {
+                    "truncate" => under(&text(0)),
+                    _ => a.first().and_then(|x| x.parse::<i64>().ok()).is_some_and(|fd| fds.contains_key(&fd)),
+                };
+                if touches {
+                    return Err(format!("unmodelled call on the state file: {l}"));
+                }
+            }
+            _ => {}
+        }
+    }
+    Ok(ops)
+}
+
+fn apply_op(files: &mut BTreeMap<String, Vec<u8>>, op: &FsOp) {
+    match op {
+        FsOp::Truncate(p) => {
+            files.insert(p.clone(), Vec::new());
+        }
+        FsOp::Write(p, data) => files.entry(p.clone()).or_default().extend_from_slice(data),
+        FsOp::Rename(a, b) => {
+            if let Some(v) = files.remove(a) {
+                files.insert(b.clone(), v);
+            }
+        }
+        FsOp::Unlink(p) => {
+            files.remove(p);
+        }
+        FsOp::Marker => {}
+    }
+}
+
+fn statefile_traced(rep: &mut Report) {
+    rep.rule(
+        "the real transitions new_from_path, into_prepared, into_started, into_prepared, revert, into_prepared, into_started run in a child          process under strace; for every crash point of the recorded file-system history (before each open/truncate, write, rename; after every          byte of every write) the directory is materialised and the real SubmissionStateAtStartup::new_from_path must succeed and report the          state before or after the interrupted transition",
+    );
+    let dir = tempfile::tempdir().unwrap();
+    let dir_s = dir.path().to_str().unwrap().to_string();
+    let state_path = dir.path().join("state.json");
+    let fresh = "{\"state\": \"fresh\"}";
+    std::fs::write(&state_path, fresh).unwrap();
+    let log_path = dir.path().join("strace.log");
+    let exe = std::env::current_exe().unwrap();
+    let status = std::process::Command::new("strace")
+        .args(["-f", "-qq", "-o"])
+        .arg(&log_path)
+        .args([
+            "-e",
+            "trace=open,openat,creat,close,write,pwrite64,writev,rename,renameat,renameat2,unlink,unlinkat,ftruncate,truncate,dup,dup2,dup3,copy_file_range,sendfile",
+            "-s",
+            "1000000",
+            "-xx",
+        ])
+        .arg(&exe)
+        .args(["relayer::verif_relayer::verif_c11_statefile", "--exact", "--nocapture", "--test-threads", "1"])
+        .env("VERIF_C11_CHILD", &dir_s)
+        .stdout(std::process::Stdio::null())
+        .stderr(std::process::Stdio::null())
+        .status();
+    let harness_fail = |rep: &mut Report, what: &str, detail: String| {
+        rep.finding(Finding {
+            clause: "harness".into(),
+            signature: what.into(),
+            detail,
+            case: J::obj(),
+        });
+    };
+    match status {
+        Ok(s) if s.success() => {}
+        other => {
+            harness_fail(rep, "traced child did not run", format!("{other:?}"));
+            return;
+        }
+    }
+    let log = std::fs::read_to_string(&log_path).unwrap_or_default();
+    let initial: BTreeMap<String, Vec<u8>> = [(format!("{dir_s}/state.json"), fresh.as_bytes().to_vec())].into_iter().collect();
+    let ops = match parse_strace(&log, &dir_s, &initial) {
+        Ok(o) => o,
+        Err(e) => {
+            harness_fail(rep, "file-system history not understood", e);
+            return;
+        }
+    };
+    let markers = ops.iter().filter(|o| matches!(o, FsOp::Marker)).count();
+    let renames = ops.iter().filter(|o| matches!(o, FsOp::Rename(..))).count();
+    let writes = ops.iter().filter(|o| matches!(o, FsOp::Write(..))).count();
+    println!("NOTE C11 statefile trace: {} file-system calls ({writes} writes, {renames} renames, {markers} markers)", ops.len());
+    if markers != CHILD_STEPS + 1 || writes < CHILD_STEPS {
+        harness_fail(rep, "file-system history incomplete", format!("{markers} markers, {writes} writes, {renames} renames; ops {ops:?}"));
+        return;
+    }
+    let rt = tokio::runtime::Builder::new_current_thread().enable_all().build().unwrap();
+    // observe a materialised directory through the real reader
+    let observe = |files: &BTreeMap<String, Vec<u8>>| -> Result<String, String> {
+        let d = tempfile::tempdir().unwrap();
+        let here = d.path().to_str().unwrap().to_string();
+        for (p, bytes) in files {
+            if p.ends_with("/marker") {
+                continue;
+            }
+            std::fs::write(p.replace(&dir_s, &here), bytes).unwrap();
+        }
+        rt.block_on(SubmissionStateAtStartup::new_from_path(d.path().join("state.json")))
+            .map(|s| format!("{s:?}").replace(&here, "<DIR>"))
+            .map_err(|e| format!("{e:#}").replace(&here, "<DIR>"))
+    };
+    // pass 1: the state at every marker (no crash)
+    let mut files: BTreeMap<String, Vec<u8>> = BTreeMap::new();
+    files.insert(format!("{dir_s}/state.json"), fresh.as_bytes().to_vec());
+    let mut at_marker: Vec<String> = Vec::new();
+    for op in &ops {
+        if matches!(op, FsOp::Marker) {
+            match observe(&files) {
+                Ok(s) => at_marker.push(s),
+                Err(e) => {
+                    harness_fail(rep, "state unreadable at a transition boundary", e);
+                    return;
+                }
+            }
+        }
+        apply_op(&mut files, op);
+    }
+    rep.set_extra("statefile_states_at_markers", J::arr(at_marker.iter().map(|s| J::s(s.clone()))));
+    // pass 2: every crash point
+    let mut files: BTreeMap<String, Vec<u8>> = BTreeMap::new();
+    files.insert(format!("{dir_s}/state.json"), fresh.as_bytes().to_vec());
+    let mut step = 0usize; // number of markers passed
+    let mut check = |rep: &mut Report, files: &BTreeMap<String, Vec<u8>>, step: usize, what: String| {
+        rep.add("evaluations", 1);
+        rep.add("schedules", 1);
+        let allowed: Vec<&String> = [step.checked_sub(1), Some(step)].into_iter().flatten().filter_map(|k| at_marker.get(k)).collect();
+        let got = observe(files);
+        let ok = matches!(&got, Ok(s) if allowed.contains(&s));
+        if !ok {
+            rep.finding(Finding {
+                clause: "state-file-readable".into(),
+                signature: "a crash inside a state transition leaves a state file that is unreadable or names a third state".into(),
+                detail: format!("crash {what} during transition {step}: new_from_path gives {got:?}; allowed {allowed:?}"),
+                case: J::obj().with("transition", J::i(step as u64)).with("crash", J::s(what)),
+            });
+        }
+    };
+    for (i, op) in ops.iter().enumerate() {
+        match op {
+            FsOp::Marker => {
+                step += 1;
+            }
+            FsOp::Write(p, data) => {
+                check(rep, &files, step, format!("before call {i} (write of {} bytes to {})", data.len(), p.replace(&dir_s, "<DIR>")));
+                for cut in 1..data.len() {
+                    let mut torn = files.clone();
+                    torn.entry(p.clone()).or_default().extend_from_slice(&data[..cut]);
+                    check(rep, &torn, step, format!("after {cut} of {} bytes of call {i} (write to {})", data.len(), p.replace(&dir_s, "<DIR>")));
+                }
+            }
+            other => check(rep, &files, step, format!("before call {i} ({:?})", format!("{other:?}").replace(&dir_s, "<DIR>"))),
+        }
+        apply_op(&mut files, op);
+    }
+    check(rep, &files, step, "after the last call".into());
 }
